@@ -119,9 +119,8 @@ def runKey (c : Json) : E Json := do
 /-! ### histories -/
 
 def recheckOf (fn : String) : Bool :=
-  match rechecked.lookup fn with
-  | some call => (Gen.CacheKeys.hitPath.lookup fn).any (·.contains call)
-  | none => false
+  let need := rechecked.filter (·.1 == fn)
+  !need.isEmpty && need.all fun p => (Gen.CacheKeys.hitPath.lookup fn).any (·.contains p.2)
 
 def outName {α : Type} : Outcome α → String
   | .ok _ => "ok"
